@@ -28,7 +28,8 @@ RULE = ('each run = 20-40 validations of time locks on 1-3 simulated validators 
         'class, observed verdict)')
 REQUIRED_PROBES = ['t==c', 't==c-1', 't-now==thr', 't-now==thr-1', 'thr<=0',
                    'constraint_top_bit', 'encoding_len_9', 'step_between_reads',
-                   'mixed_slack_reads', 'fractional_now', 'empty_window', 'default_timestamp']
+                   'mixed_slack_reads', 'fractional_now', 'empty_window', 'default_timestamp'] + \
+    ['nested_' + n for n in ('if', 'call', 'eval', 'try', 'loop', 'scripthash')]
 
 KINDS = ['cts', 'ctsv', 'ce', 'cev', 'after', 'afterv', 'before', 'beforev',
          'between', 'betweenv']
@@ -85,7 +86,9 @@ def gen_step(rng: Rng, cell, vname, now_s, at_us, big):
         c = max(t - dt, 0)
     step = {'at_us': at_us, 'validator': vname, 'kind': kind, 't': t,
             'thr': thr, 'thr_e': rng.choice([0, 1, 2, 60, 3600]),
-            'via': rng.choice(['global', 'additional']), 'faults': []}
+            'via': rng.choice(['global', 'additional']), 'faults': [],
+            'gthr': rng.choice([60, 0, 1, 10 ** 6]), 'gthr_e': rng.choice([60, 0, 1, 10 ** 6]),
+            'nest': rng.choice(NESTS)}
     if kind in ('ce', 'cev'):
         # constraint relative to clock and epoch threshold instead
         d = ds if ds != 'far' else rng.choice([-far, far])
@@ -212,6 +215,38 @@ def build_lock(step):
     return T.make_timestamp_between_lock(step['c'], step['c2'], v)
 
 
+NESTS = ['top', 'top', 'top', 'if', 'call', 'eval', 'try', 'loop', 'scripthash']
+
+
+def wrap(lock, nest, verify_form):
+    """the same time check, executed inside a nesting context.  The value the
+    check leaves (or the error it raises) must come out unchanged."""
+    h = lock.bytes.hex()
+    c = T.compile_script
+    if nest == 'top':
+        return lock.bytes
+    if nest == 'if':
+        return c('true if { push x%s eval }' % h) if False else \
+            c('true') + bytes([F.opcodes_inverse['OP_IF'][0]]) + len(lock.bytes).to_bytes(2, 'big') + lock.bytes
+    if nest == 'call':
+        return bytes([F.opcodes_inverse['OP_DEF'][0], 0]) + len(lock.bytes).to_bytes(2, 'big') + \
+            lock.bytes + bytes([F.opcodes_inverse['OP_CALL'][0], 0])
+    if nest == 'eval':
+        return c('push x%s eval' % h)
+    if nest == 'try':
+        exc = c('false verify')
+        return bytes([F.opcodes_inverse['OP_TRY_EXCEPT'][0]]) + len(lock.bytes).to_bytes(2, 'big') + \
+            lock.bytes + len(exc).to_bytes(2, 'big') + exc
+    if nest == 'loop':
+        body = lock.bytes + c('false')
+        code = c('true') + bytes([F.opcodes_inverse['OP_LOOP'][0]]) + len(body).to_bytes(2, 'big') + body
+        # the loop leaves [true, (result,) false]: drop the two markers
+        return code + (c('pop0 pop0') if verify_form else c('pop0 swap2 pop0'))
+    if nest == 'scripthash':
+        return T.make_scripthash_witness(lock).bytes + T.make_scripthash_lock(lock).bytes
+    raise ValueError(nest)
+
+
 def observe(step, lock, run):
     """Run the real code; returns 'ACCEPT' / 'REJECT' / 'BAD:<why>'."""
     k = step['kind']
@@ -221,14 +256,18 @@ def observe(step, lock, run):
         flags = {}
         if step['via'] == 'additional':
             flags = {'ts_threshold': step['thr'], 'epoch_threshold': step['thr_e']}
+            # ... while the process-wide defaults say something else
+            F.flags['ts_threshold'] = step.get('gthr', 60)
+            F.flags['epoch_threshold'] = step.get('gthr_e', 60)
         else:
             F.flags['ts_threshold'] = step['thr']
             F.flags['epoch_threshold'] = step['thr_e']
         try:
+            code = lock
             if t is None:       # really rely on the defaults: no cache argument at all
-                _, stack, _ = F.run_script(lock.bytes, additional_flags=flags)
+                _, stack, _ = F.run_script(code, additional_flags=flags)
             else:
-                _, stack, _ = F.run_script(lock.bytes, cache, additional_flags=flags)
+                _, stack, _ = F.run_script(code, cache, additional_flags=flags)
         except ScriptExecutionError:
             return REJECT if k in ('ctsv', 'cev') else 'BAD:raised_ScriptExecutionError'
         except LIB_ERRORS as e:
@@ -241,11 +280,14 @@ def observe(step, lock, run):
         if items == [b'\x00']:
             return REJECT
         return 'BAD:stack_' + ','.join(i.hex() for i in items)[:40]
-    scripts = [lock]
+    nested = T.Script('# nested #', lock)
+    scripts = [nested]
     if k.endswith('v'):
-        scripts = [T.Script.from_src('true'), lock]
+        scripts = [T.Script.from_src('true'), nested]
     if step['via'] == 'additional':
         # the verifier supplies its thresholds per call
+        F.flags['ts_threshold'] = step.get('gthr', 60)
+        F.flags['epoch_threshold'] = step.get('gthr_e', 60)
         try:
             af = {'ts_threshold': step['thr'], 'epoch_threshold': step['thr_e']}
             code = b''.join(s.bytes for s in scripts)
@@ -357,7 +399,9 @@ def execute(plan, run):
         run.probe('fractional_now')
     for i, step in enumerate(plan['steps']):
         CLOCK.tau = max(CLOCK.tau, step['at_us'])
-        lock = build_lock(step)
+        # everything is built before the validator's clock is consulted (the
+        # scripthash builder executes a comptime block, which reads the clock)
+        lock = wrap(build_lock(step), step.get('nest', 'top'), step['kind'].endswith('v'))
         CLOCK.begin_call(step['validator'], step['faults'])
         try:
             obs = observe(step, lock, run)
@@ -368,7 +412,9 @@ def execute(plan, run):
             run.probe('default_timestamp')
             step = dict(step, t=int(reads[0]) if reads else 0)
         mdl = model(step, reads)
-        run.sched.append([step['kind'], step['validator'], len(reads),
+        if step.get('nest', 'top') != 'top':
+            run.probe('nested_' + step['nest'])
+        run.sched.append([step['kind'], step.get('nest', 'top'), step['validator'], len(reads),
                           [f['kind'] for f in step['faults']]])
         run.ev('val', i, step['kind'], step['t'], reads, obs, mdl)
         run.judge('window', obs, mdl,
@@ -410,7 +456,7 @@ def execute(plan, run):
             dcls = _cls(t - c) if k not in ('ce', 'cev') else _cls(c - now0 - step['thr_e'])
             scls = 'off' if thr <= 0 else _cls(t - now0 - thr)
             tcls = 'neg' if thr < 0 else str(thr) if thr in (0, 1, 2, 60) else 'large'
-            run.cell(k, dcls, scls, tcls, fcls, obs)
+            run.cell(k, step.get('nest', 'top'), dcls, scls, tcls, fcls, obs)
         if run.sample is None and i == 0:
             run.sample = {'step': step, 'reads': reads, 'observed': obs, 'model': mdl}
     _merge_fired(run)
@@ -496,4 +542,8 @@ def shrink(plan):
         if s.get('via') == 'additional':
             c = copy.deepcopy(p)
             c['steps'][i]['via'] = 'global'
+            yield c
+        if s.get('nest', 'top') != 'top':
+            c = copy.deepcopy(p)
+            c['steps'][i]['nest'] = 'top'
             yield c
